@@ -121,6 +121,7 @@ func c14Package(rng *rand.Rand, idx int) (rcase, []c14op) {
 			pi.Ops = append(pi.Ops, o)
 			ops = append(ops, c14op{pi, o, body, plans})
 		}
+		scatterPathParams(rng, pi)
 		sp.Paths = append(sp.Paths, pi)
 	}
 	rc := rcase{Pkg: fmt.Sprintf("p%04d", idx), Spec: sp, FlagBase: bf.Flag, Cors: rng.Intn(2) == 0}
